@@ -8,30 +8,12 @@ through vbi_decode; after every terminated transmission the fetched page must eq
 characters mapped through L1Spec with the *standard's* rules (`L1Spec.page .std`, evaluated by the Lean
 driver op `specstd`), with the transmitted page/subpage number and FLOF links, and exactly one
 TTX_PAGE event per transmission; a wildcard subpage fetch returns the subpage just received."""
-import json, os, subprocess, sys
+import os, subprocess, sys
 sys.path.insert(0, os.path.join(os.path.dirname(os.path.abspath(__file__)), "..", "lib"))
 import verif
 import fmt_util as F
 
 G0_SETS = [1, 3, 4, 5, 7, 9, 11]
-
-# ---- local work-arounds for two things lib/verif.py does not offer (see NOTES/C02.md) ----------------
-# 1. per-component known findings file (known_findings.C02.json) merged into the shared list
-_orig_load_known = verif.load_known
-def _load_known():
-    k = _orig_load_known()
-    p = os.path.join(verif.VERIF, "known_findings.C02.json")
-    if os.path.exists(p):
-        mine = json.load(open(p)).get("findings", [])
-        have = {(f.get("property"), f.get("id")) for f in k.get("findings", [])}
-        k = dict(k)
-        k["findings"] = list(k.get("findings", [])) + [f for f in mine if (f.get("property"), f.get("id")) not in have]
-    return k
-verif.load_known = _load_known
-# 2. network cases on which the real code shows a *known* defect are taken out of the correspondence diff
-#    (the driver's answers to `evcount`/`events`/`fetch` are the sender spec's predictions, which the known
-#    defect contradicts by definition); they still go through the oracle and print KNOWN-FINDING.
-_orig_run_side = verif.run_side
 
 CELL = 11   # characters per printed cell
 
@@ -51,11 +33,11 @@ class C02(verif.Spec):
     timeout_per_case = 10.0
     partial_note = ("format_refines_L1Spec is proved for every page, subset and cell against L1Spec with libzvbi's "
                     "held-mosaic reading; against the standard's reset rule it is proved under the hypothesis that no "
-                    "held mosaic survives a mode/size change (counterexample proved and replayed: known finding). "
+                    "held mosaic survives a mode/size change (counterexample proved and replayed: known finding F37). "
                     "page_roundtrip (packet assembly + cache + format) is an open statement covered by the network oracle; "
                     "Level 2.5/3.5 enhancement, X/26, TOP navigation, zap_links are not modelled.")
     open_statements = ["Zvbi.Props.C02.format_refines_L1Spec_full (false on the unchanged tree: see ..._counterexample)",
-                       "Zvbi.Props.C02.page_roundtrip_full (needs the packet.c model of C03 and the cache model of C10)"]
+                       "Zvbi.Props.C02.page_roundtrip_full (needs positive lemmas about Ttx.processHeader / sameHeader / storeLop / cachePut that C03 does not have yet; see NOTES/C02.md)"]
     assumptions = ["consistent page header across the network (header columns 8-31 equal except the page number)",
                    "regular frame timestamps (40 ms)", "no X/26, X/28, M/29 packets; no MOT/MIP/TOP pages",
                    "page numbers decimal 100-899, subpages 00-79"]
@@ -68,27 +50,6 @@ class C02(verif.Spec):
     # ------------------------------------------------------------------ Lean spec evaluation
     def __init__(self):
         self._std = {}
-        self.skipped_known = 0
-        st = {"impl": None, "n": -1}
-        known = {k.get("signature") for k in verif.load_known().get("findings", [])
-                 if k.get("property") == "C02" and k.get("skip_correspondence")}
-        def run_side(cmd, cases, *a, **kw):
-            outs, inc = _orig_run_side(cmd, cases, *a, **kw)
-            if cmd and cmd[0] == verif.model_exe():
-                if st["impl"] is not None and st["n"] == len(cases):
-                    for i, c in enumerate(cases):
-                        if self.classify(c) != "net":
-                            continue
-                        io = st["impl"].get(i, [])
-                        w = self.oracle(c, io)
-                        if w and self.signature(c, w) in known:
-                            outs[i] = list(io)
-                            self.skipped_known += 1
-                    self.extra_coverage = {"net_cases_excluded_from_correspondence_for_known_finding": self.skipped_known}
-            else:
-                st["impl"], st["n"] = outs, len(cases)
-            return outs, inc
-        verif.run_side = run_side
 
     def specstd(self, argstrs):
         """argstrs: list of 'lvl region pgno subno flags national hex' -> fills the cache"""
@@ -146,9 +107,14 @@ class C02(verif.Spec):
                     nav[k] = lk
         return " ".join("%03x:%04x" % l for l in nav)
 
-    def gen_net(self, rng, tier):
-        serial = 1 if rng.random() < 0.45 else 0
-        nmag = rng.choice([1, 2, 2, 3, 4, 8])
+    def gen_net(self, rng, tier, style="random"):
+        """style "random": independent page pools per magazine, random schedule.
+        style "carousel": what a real service looks like - the magazines share the same tens/units digits
+        (150, 250, 350 ...), the whole set is retransmitted in cycles with changed rows and mostly WITHOUT the
+        erase flag, in serial mode usually ordered so that equal digits of different magazines are adjacent."""
+        carousel = style == "carousel"
+        serial = 1 if rng.random() < (0.7 if carousel else 0.45) else 0
+        nmag = rng.choice([2, 2, 3, 4]) if carousel else rng.choice([1, 2, 2, 3, 4, 8])
         mags = rng.sample(range(8), nmag)            # 0 = magazine 8
         region = rng.choice([0, 0, 8, 16, 32, 36, rng.randrange(88)])
         letters = [rng.choice(b"ABCDEFGHIJKLMNOPQRSTUVWXYZ abcdefghijklmnopqrstuvwxyz") for _ in range(24)]
@@ -156,12 +122,14 @@ class C02(verif.Spec):
             letters[rng.randrange(24)] = rng.randrange(0x20)
         off = rng.randrange(0, 21)
         pools, plans = {}, {}
+        decimal = [a * 16 + b for a in range(10) for b in range(10)]
+        shared = rng.sample(decimal, rng.choice([2, 2, 3]))
         for m in mags:
-            pages = rng.sample([a * 16 + b for a in range(10) for b in range(10)], rng.choice([2, 3, 4]))
-            pools[m] = [(pg, rng.choice([0, 0, 3]), rng.randrange(8)) for pg in pages]   # (page, nsub, national)
-        contents = {}
-        def make_tx(m, last_page):
-            cand = [x for x in pools[m] if x[0] != last_page]
+            pages = shared if carousel else rng.sample(decimal, rng.choice([2, 3, 4]))
+            pools[m] = [(pg, rng.choice([0, 0, 0, 0, 2] if carousel else [0, 0, 3]), rng.randrange(8)) for pg in pages]   # (page, nsub, national)
+        c4p = rng.choice([0.0, 0.1, 0.2]) if carousel else 0.3
+        def make_tx(m, last_page, want=None):
+            cand = [x for x in pools[m] if x[0] != last_page and (want is None or x[0] == want)]
             page, nsub, nat = rng.choice(cand)
             subno = 0 if nsub == 0 else rng.randrange(1, nsub + 1)
             pgno = (m if m else 8) * 256 + page
@@ -171,7 +139,7 @@ class C02(verif.Spec):
                 text[off + i] = ord(ch)
             clock = [ord(c) for c in "%02d:%02d:%02d" % (rng.randrange(24), rng.randrange(60), rng.randrange(60))]
             text32 = [F.par(c) for c in text + clock]
-            c4 = 1 if rng.random() < 0.3 else 0
+            c4 = 1 if rng.random() < c4p else 0
             c5 = 1 if rng.random() < 0.07 else 0
             c6 = 1 if rng.random() < 0.07 else 0
             ctl = (serial << 4) | F.NATIONAL_CTL(nat)
@@ -180,7 +148,8 @@ class C02(verif.Spec):
             if rng.random() < 0.05: ctl |= 8
             allrows = F.gen_page_rows(rng)
             k = rng.random()
-            if k < 0.5: which = list(range(1, 25))
+            if carousel and k < 0.7: which = [r for r in range(1, 25) if rng.random() < 0.25] or [1]
+            elif k < 0.5: which = list(range(1, 25))
             elif k < 0.6: which = list(range(1, 24))
             else: which = [r for r in range(1, 25) if rng.random() < 0.6]
             rng.shuffle(which) if rng.random() < 0.5 else None
@@ -194,16 +163,38 @@ class C02(verif.Spec):
                     links.append((lm * 256 + lp, rng.choice([0x3F7F, 0, 1, rng.randrange(0x4000) & 0x3F7F])))
                 x27 = (links, rng.choice([0x8, 0xF, 0x0, 0x7]))
             return F.Transmission(m, page, subno, c4, c5, c6, ctl, text32, rows, which, x27)
-        ntx = {m: rng.randrange(2, 6 if tier == "quick" else 9) for m in mags}
-        streams = {}
-        for m in mags:
-            last = None
-            txs = []
-            for _ in range(ntx[m]):
-                t = make_tx(m, last)
-                last = t.page
-                txs.append(t)
-            streams[m] = txs
+        streams = {m: [] for m in mags}
+        plan = None                                  # serial carousel: the global order of transmissions
+        if carousel:
+            plan, lastp = [], {m: None for m in mags}
+            for cyc in range(rng.choice([2, 2, 3])):
+                kind = rng.choice(["digits", "digits", "digits", "mags", "shuffle"])
+                if kind == "digits": seq = [(m, d) for d in shared for m in mags]
+                elif kind == "mags": seq = [(m, d) for m in mags for d in shared]
+                else:
+                    seq = [(m, d) for d in shared for m in mags]
+                    for _ in range(50):
+                        cand = list(seq); rng.shuffle(cand)
+                        lp, ok = dict(lastp), True
+                        for (m, d) in cand:
+                            if lp[m] == d: ok = False; break
+                            lp[m] = d
+                        if ok: seq = cand; break
+                for (m, d) in seq:
+                    if lastp[m] == d:
+                        continue
+                    t = make_tx(m, lastp[m], want=d)
+                    lastp[m] = d
+                    streams[m].append(t)
+                    plan.append(m)
+        else:
+            ntx = {m: rng.randrange(2, 6 if tier == "quick" else 9) for m in mags}
+            for m in mags:
+                last = None
+                for _ in range(ntx[m]):
+                    t = make_tx(m, last)
+                    last = t.page
+                    streams[m].append(t)
         # packet units: (mag, kind, payload); a unit list per transmission
         def units(t):
             u = [("hdr", t)]
@@ -214,8 +205,12 @@ class C02(verif.Spec):
         order = []      # sequence of units across magazines
         if serial:
             idx = {m: 0 for m in mags}
+            pi = 0
             while any(idx[m] < len(streams[m]) for m in mags):
-                m = rng.choice([m for m in mags if idx[m] < len(streams[m])])
+                if plan is not None:
+                    m = plan[pi]; pi += 1
+                else:
+                    m = rng.choice([m for m in mags if idx[m] < len(streams[m])])
                 order += units(streams[m][idx[m]])
                 idx[m] += 1
             for m in mags:
@@ -306,8 +301,12 @@ class C02(verif.Spec):
             cases.append(["fmt " + a, "spec " + a])
             need.append(a)
         # 3. networks through the real decoder
-        for _ in range(70 if quick else 500):
+        for _ in range(45 if quick else 400):
             lines, nd = self.gen_net(rng, tier)
+            cases.append(lines)
+            need += nd
+        for _ in range(30 if quick else 300):
+            lines, nd = self.gen_net(rng, tier, "carousel")
             cases.append(lines)
             need += nd
         # 4. malformed op lines
@@ -379,8 +378,6 @@ class C02(verif.Spec):
                 stored_before = True
         c4eff = bool(h[4]) or not stored_before
         nxt_other = k + 1 < len(hdrs) and hdrs[k + 1][1] != h[1]
-        if h[5] and c4eff and nxt_other:
-            return "serial mode, erase flag or first reception, next header in another magazine"
         return "serial=%d c4=%d first=%d next-header-other-magazine=%d" % (h[5], h[4], not stored_before, nxt_other)
 
     def oracle(self, case, out):
